@@ -361,6 +361,19 @@ def check_lifetimes(case, ctx):
     usually gets the same thread identifier); 'task' steps hand a program to a long-lived pool worker. Oracle: a
     per-thread model (what a thread is served by depends on its own blocks and on its own latest inherit() only)."""
     import queue
+
+    def well_formed(ops):
+        return isinstance(ops, list) and all(isinstance(op, list) and op and (
+            (op[0] in ("exit", "touch", "inherit") and len(op) == 1) or (op[0] in ("enter", "run") and len(op) == 2 and isinstance(op[1], int))) for op in ops)
+    if not (isinstance(case["pool"], list) and case["pool"] and all(isinstance(ov, list) and all(isinstance(p, list) and len(p) == 2 for p in ov) for ov in case["pool"])):
+        ctx.done(case, False, ["malformed (reducer artefact)"])
+        return
+    for step in case["main"]:
+        ok = isinstance(step, list) and step and (well_formed([step]) or (step[0] == "spawn" and len(step) == 2 and well_formed(step[1]))
+                                                   or (step[0] == "task" and len(step) == 3 and isinstance(step[1], int) and well_formed(step[2])))
+        if not ok or step[0] == "inherit":
+            ctx.done(case, False, ["malformed (reducer artefact)"])
+            return
     before = set(getattr(runtime, "_DEFAULT_HANDLERS", {}))
     table = getattr(runtime, "_RUNTIMES", None)
     table_before = dict(table) if isinstance(table, dict) else None
@@ -528,7 +541,7 @@ def lifetime_cases(draw):
 NPROC = {"quick": 8, "thorough": 16}
 WALL_CAP = {"quick": 90, "thorough": 1200}
 PARTS = [
+    Part("lifetimes", check_lifetimes, strategy=lambda ctx: lifetime_cases(), budget={"quick": 300, "thorough": 2000}),
     Part("systematic", check, enumerate=enum_systematic, budget={"quick": None, "thorough": None}),
     Part("random", check, strategy=lambda ctx: random_cases(), budget={"quick": 400, "thorough": 2500}),
-    Part("lifetimes", check_lifetimes, strategy=lambda ctx: lifetime_cases(), budget={"quick": 300, "thorough": 2000}),
 ]
